@@ -45,7 +45,9 @@ const (
 	fgIdx  = 3
 )
 
-var userFunds = []int64{3 * unit, unit / 2, 2 * unit, unit}
+// denominations: 1 = the bond denom, 2 = a second, genesis-funded denom (licences may be paid in ANY denom)
+var denomNames = []string{env.BondDenom, "uusdc"}
+var userFunds = [][]int64{{3 * unit, unit}, {unit / 2, 2 * unit}, {2 * unit, 0}, {unit, 0}}
 var freshIDs = []int{11, 12}
 var tracked = []int{11, 12, 3} // client addresses observed
 var chainNames = map[int]string{1: "eth-main", 2: "bnb-main"}
@@ -61,6 +63,7 @@ type args struct {
 	K   int    `json:"k"`
 	Q   int    `json:"q"`
 	Via string `json:"via"`
+	D   int    `json:"d"`
 }
 
 type world struct {
@@ -73,7 +76,13 @@ type world struct {
 func newWorld() *world {
 	var users []sdk.Coins
 	for _, f := range userFunds {
-		users = append(users, sdk.NewCoins(sdk.NewInt64Coin(env.BondDenom, f)))
+		cs := sdk.NewCoins()
+		for d, x := range f {
+			if x > 0 {
+				cs = cs.Add(sdk.NewInt64Coin(denomNames[d], x))
+			}
+		}
+		users = append(users, cs)
 	}
 	e := env.NewE2(env.E2Options{Seed: drv.Seed(), Powers: []int64{10, 10, 10}, Users: users})
 	ew, err := e.AddEvmChains(env.EvmChainSpec{RefID: chainNames[1]}, env.EvmChainSpec{RefID: chainNames[2]})
@@ -140,15 +149,37 @@ func gcd(a, b int64) int64 {
 
 func (w *world) rel(t int64) int { return int(t - w.gen.Unix()) }
 
+// perDenom projects coins on the tracked denominations; extra = number of other denominations present.
+func perDenom(cs sdk.Coins) (out []int, extra int) {
+	for _, d := range denomNames {
+		out = append(out, small(cs.AmountOf(d)))
+	}
+	for _, c := range cs {
+		if denomIdx(c.Denom) < 0 && !c.Amount.IsZero() {
+			extra++
+		}
+	}
+	return
+}
+
+func denomIdx(d string) int {
+	for i, n := range denomNames {
+		if n == d {
+			return i + 1
+		}
+	}
+	return -1
+}
+
 func (w *world) observe() map[string]any {
 	e := w.e
 	ctx := e.Ctx()
 	a := e.App
 	modAddr := a.AccountKeeper.GetModuleAddress(palomatypes.ModuleName)
 	now := e.Time
-	obs := map[string]any{"now": w.rel(now.Unix()), "escrow": small(a.BankKeeper.GetBalance(ctx, modAddr, env.BondDenom).Amount)}
-	// anything but the bond denom in the escrow account
-	obs["escrowx"] = len(a.BankKeeper.GetAllBalances(ctx, modAddr).Sub(a.BankKeeper.GetBalance(ctx, modAddr, env.BondDenom)))
+	obs := map[string]any{"now": w.rel(now.Unix())}
+	// the escrow account per tracked denomination; escrowx: anything else in it
+	obs["escrow"], obs["escrowx"] = perDenom(a.BankKeeper.GetAllBalances(ctx, modAddr))
 	lics, err := a.PalomaKeeper.AllLightNodeClientLicenses(ctx)
 	if err != nil {
 		panic(err)
@@ -162,13 +193,10 @@ func (w *world) observe() map[string]any {
 	var cl []map[string]any
 	for _, id := range tracked {
 		ad := w.addr(id)
-		r := map[string]any{"c": id, "lic": 0, "lamt": 0, "lm": 0, "acct": 0, "start": 0, "end": 0, "endm": 0, "orig": 0, "num": 0, "den": 1,
+		r := map[string]any{"c": id, "lic": 0, "lamt": 0, "lm": 0, "lden": 0, "acct": 0, "start": 0, "end": 0, "endm": 0, "orig": 0, "oden": 0, "num": 0, "den": 1,
 			"client": 0, "grant": 0, "gspend": 0}
 		if l, ok := licOf[ad.String()]; ok {
-			r["lic"], r["lamt"], r["lm"] = 1, small(l.Amount.Amount), int(l.VestingMonths)
-			if l.Amount.Denom != env.BondDenom {
-				r["lamt"] = -1
-			}
+			r["lic"], r["lamt"], r["lm"], r["lden"] = 1, small(l.Amount.Amount), int(l.VestingMonths), denomIdx(l.Amount.Denom)
 		}
 		switch acc := a.AccountKeeper.GetAccount(ctx, ad).(type) {
 		case nil:
@@ -177,9 +205,9 @@ func (w *world) observe() map[string]any {
 		case *vestingtypes.ContinuousVestingAccount:
 			r["acct"] = 2
 			r["start"], r["end"] = w.rel(acc.StartTime), w.rel(acc.EndTime)
-			r["orig"] = -1
-			if len(acc.OriginalVesting) == 1 && acc.OriginalVesting[0].Denom == env.BondDenom {
-				r["orig"] = small(acc.OriginalVesting[0].Amount)
+			r["orig"], r["oden"] = -1, -1
+			if len(acc.OriginalVesting) == 1 {
+				r["orig"], r["oden"] = small(acc.OriginalVesting[0].Amount), denomIdx(acc.OriginalVesting[0].Denom)
 			}
 			st := time.Unix(acc.StartTime, 0).UTC()
 			r["endm"] = -1
@@ -209,9 +237,11 @@ func (w *world) observe() map[string]any {
 		default:
 			r["acct"] = 3
 		}
-		r["locked"] = small(a.BankKeeper.LockedCoins(ctx, ad).AmountOf(env.BondDenom))
-		r["bal"] = small(a.BankKeeper.GetBalance(ctx, ad, env.BondDenom).Amount)
-		r["spendable"] = small(a.BankKeeper.SpendableCoins(ctx, ad).AmountOf(env.BondDenom))
+		var x1, x2, x3 int
+		r["locked"], x1 = perDenom(a.BankKeeper.LockedCoins(ctx, ad))
+		r["bal"], x2 = perDenom(a.BankKeeper.GetAllBalances(ctx, ad))
+		r["spendable"], x3 = perDenom(a.BankKeeper.SpendableCoins(ctx, ad))
+		r["balx"] = x1 + x2 + x3
 		if _, err := a.PalomaKeeper.GetLightNodeClient(ctx, ad.String()); err == nil {
 			r["client"] = 1
 		}
@@ -226,9 +256,10 @@ func (w *world) observe() map[string]any {
 		cl = append(cl, r)
 	}
 	obs["cl"] = cl
-	var ub []int
+	var ub [][]int
 	for i := 0; i <= nUsers; i++ {
-		ub = append(ub, small(a.BankKeeper.GetBalance(ctx, e.User(i).Addr, env.BondDenom).Amount))
+		b, _ := perDenom(a.BankKeeper.GetAllBalances(ctx, e.User(i).Addr))
+		ub = append(ub, b)
 	}
 	obs["ubal"] = ub
 	fl := []int{}
@@ -310,8 +341,11 @@ func (w *world) do(act string, a args) outcome {
 	app := e.App
 	switch act {
 	case "AddLicense":
+		if a.D < 1 || a.D > len(denomNames) {
+			panic(fmt.Sprintf("AddLicense: denomination %d", a.D))
+		}
 		return fromTx(e.RunAs(w.acc(a.Who), &palomatypes.MsgAddLightNodeClientLicense{Metadata: w.md(a), ClientAddress: w.addr(a.C).String(),
-			Amount: sdk.NewInt64Coin(env.BondDenom, int64(a.Amt)*unit), VestingMonths: uint32(a.M)}))
+			Amount: sdk.NewInt64Coin(denomNames[a.D-1], int64(a.Amt)*unit), VestingMonths: uint32(a.M)}))
 	case "Register":
 		return fromTx(e.RunAs(w.acc(a.Who), &palomatypes.MsgRegisterLightNodeClient{Metadata: w.md(a)}))
 	case "Auth":
